@@ -501,7 +501,9 @@ def main_run(check, tier, seed, replay_file=None):
                     props = check.props if isinstance(check.props, (list, tuple)) else [check.props]
                     audit = None
                     for pr in props:
-                        a = audit_props(check.cluster, pr, check.allowed_axioms)
+                        # a props file of another cluster is written (cluster, file)
+                        pcl, pfile = pr if isinstance(pr, (tuple, list)) else (check.cluster, pr)
+                        a = audit_props(pcl, pfile, check.allowed_axioms)
                         if audit is None:
                             audit = a
                         else:
@@ -514,7 +516,7 @@ def main_run(check, tier, seed, replay_file=None):
                         audit['problems'].append('hygiene: ' + b)
                     if not ctx.quick() and not audit['problems']:
                         with ctx.timed('coqchk'):
-                            chk = [coqchk_props(check.cluster, pr, check.allowed_axioms) for pr in props]
+                            chk = [coqchk_props(*((pr[0], pr[1]) if isinstance(pr, (tuple, list)) else (check.cluster, pr)), check.allowed_axioms) for pr in props]
                         audit['coqchk'] = [{'cmd': c['cmd'], 'axioms': c['axioms']} for c in chk]
                         for c in chk:
                             audit['problems'] += c['problems']
